@@ -85,6 +85,7 @@ type Chan struct {
 	Cap    int
 	Closed bool
 	vc     vclock
+	Ticker bool // channel of a time.Ticker: ready while the harness' tick budget lasts
 }
 
 // rangeIter is the value of an ssa.Range instruction.
